@@ -25,7 +25,7 @@ func init() {
 var aclTemplates = []string{
 	"GET R:s", "STRLEN R:s", "GETRANGE R:s 0 -1", "SUBSTR R:s 0 1", "TTL R:s", "PTTL R:s", "EXPIRETIME R:s", "PEXPIRETIME R:s", "TYPE R:s",
 	"MGET R:s R:s", "MGET R:s R:s R:s", "TOUCH R:s R:s",
-	"SET W:s v", "SET W:s v NX", "SETRANGE W:s 0 v", "APPEND W:s v", "INCR W:n", "DECR W:n", "INCRBY W:n 2", "DECRBY W:n 2", "INCRBYFLOAT W:n 1.5",
+	"SET W:s v", "SET W:s v NX", "SET B:s v GET", "SET B:s v XX GET", "SETRANGE W:s 0 v", "APPEND W:s v", "INCR W:n", "DECR W:n", "INCRBY W:n 2", "DECRBY W:n 2", "INCRBYFLOAT W:n 1.5",
 	"PERSIST W:s", "EXPIRE W:s 100", "PEXPIRE W:s 100000", "EXPIREAT W:s 1893459999", "PEXPIREAT W:s 1893459999000",
 	"MSET W:s v W:s v", "MSET W:s v W:s v W:s v", "DEL W:s", "DEL W:s W:s", "DEL W:s W:s W:s",
 	"GETDEL B:s", "GETEX B:s", "GETEX B:s EX 100", "RENAME S:s W:s",
@@ -282,7 +282,7 @@ func checkC06(ctx *Ctx) {
 		"whenever the declarative evaluator written from the documentation says DENIED, the reply must be an error and the dataset, the ACL listing and the pub/sub table must be unchanged. " +
 		"Commands the real gate denies although the evaluator allows them are counted as over-restriction, not as violations. distinct_nontrivial = distinct (command, denial reason class, authentication state) decided")
 	ctx.Assume("the server requires authentication (RequirePass) in every instance of this check", "rule sets are given to ACL SETUSER in documented, unambiguous spellings; how SETUSER parses other spellings is C11's")
-	if ctx.Fork(8, "", 20*time.Minute) {
+	if ctx.Fork(8, "", ctx.Watchdog()) {
 		return
 	}
 	quietLogs()
@@ -432,6 +432,67 @@ func checkC06(ctx *Ctx) {
 		}
 	}
 	ctx.Count("configs", int64(nCfg))
+	if ctx.Shard == 0 {
+		c06Transparent(ctx, in, port, admin, cmds)
+	}
+}
+
+// c06Transparent: for a user who is allowed everything, the gate must be transparent: every command sent
+// through the authorizing TCP path must reply and act exactly as the same command executed through the
+// embedded API (which is never authorized) on a twin instance.
+func c06Transparent(ctx *Ctx, in *Inst, port int, admin *Client, cmds []aclCmd) {
+	twin, err := NewInst(InstOpts{})
+	if err != nil {
+		return
+	}
+	defer twin.Close()
+	aclPopulate(in)
+	aclPopulate(twin)
+	admin.Do("ACL", "DELUSER", "u1")
+	all := aclRules{Enabled: true, AllCats: true, AllCmds: true, AllChans: true}
+	admin.Do(append([]string{"ACL", "SETUSER", "u1"}, all.tokens()...)...)
+	c, err := Dial(port)
+	if err != nil {
+		return
+	}
+	defer c.Close()
+	if v, _, _ := c.Do("AUTH", "u1", "pw"); v.IsError() {
+		return
+	}
+	random := map[string]bool{"spop": true, "srandmember": true, "hrandfield": true, "zrandmember": true, "randomkey": true}
+	skip := map[string]bool{"subscribe": true, "psubscribe": true, "unsubscribe": true, "punsubscribe": true, "publish": true, "pubsub": true, "acl": true,
+		"select": true, "swapdb": true, "save": true, "lastsave": true, "rewriteaof": true, "commands": true, "command": true, "module": true, "ping": true, "echo": true,
+		"objectfreq": true, "objectidletime": true, "touch": true}
+	for _, cmd := range cmds {
+		if random[cmd.Name] || skip[cmd.Name] {
+			continue
+		}
+		va, _, err := c.Do(cmd.Argv...)
+		if err != nil {
+			ctx.Inconclusive("transparent lane: connection lost")
+			return
+		}
+		vb, _, crash := twin.Do(cmd.Argv...)
+		if crash != "" {
+			continue
+		}
+		ctx.Eval(1)
+		ctx.Class("transparent|" + cmd.full())
+		ra, rb := normOrder(cmd.Argv, va.String()), normOrder(cmd.Argv, vb.String())
+		if va.IsError() && vb.IsError() {
+			ra, rb = "-ERR", "-ERR"
+		}
+		da := CanonDump(in.S.VerifDump(), in.Clk.NowNs())
+		db := CanonDump(twin.S.VerifDump(), twin.Clk.NowNs())
+		if ra != rb || model.DiffCanon(db, da) != "" {
+			ctx.Violate(Violation{Kind: "not_transparent", Lane: "acl-transparent",
+				What: fmt.Sprintf("%s sent by a user who is allowed everything replied %s and left the dataset differing (%s) from the same command executed without authorization, which replied %s: the authorization step altered the command",
+					Step{Argv: cmd.Argv}.String(), trunc(ra, 120), trunc(model.DiffCanon(db, da), 200), trunc(rb, 120)),
+				Case: map[string]interface{}{"argv": cmd.Argv}, Key: "c06|transparent|" + cmd.full()})
+			aclPopulate(in)
+			aclPopulate(twin)
+		}
+	}
 }
 
 // c06Config sets the user up, brings a connection into the given state, and walks the command
